@@ -914,6 +914,52 @@ theorem tar_cache_inv_preserved_partial (G : Gz) (c : DatCache) (name : Digest) 
 
 /-! ### witnesses: the hypotheses are satisfiable; what a larger read, and the pinned end of the loop, do -/
 
+/-! #### the gzip the correspondence suite runs the model with is `Local` -/
+
+theorem tableMember_take (ms : List (Bytes × Bytes)) (bs : Bytes) (n : Nat) (d : Bytes)
+    (h : tableMember ms bs = some (n, d)) : tableMember ms (bs.take n) = some (n, d) := by
+  induction ms with
+  | nil => simp [tableMember] at h
+  | cons m ms ih =>
+    unfold tableMember at h ⊢
+    simp only [List.findSome?_cons] at h ⊢
+    by_cases hp : m.1.isPrefixOf bs = true
+    · simp only [hp, if_true] at h
+      cases h
+      have hpre : m.1 <+: bs := List.isPrefixOf_iff_prefix.mp hp
+      obtain ⟨r, hr⟩ := hpre
+      have : bs.take m.1.length = m.1 := by rw [← hr]; simp
+      rw [this]
+      simp
+    · simp only [hp] at h
+      have hp2 : m.1.isPrefixOf (bs.take n) = false := by
+        cases hq : m.1.isPrefixOf (bs.take n) with
+        | false => rfl
+        | true =>
+          have h1 : m.1 <+: bs.take n := List.isPrefixOf_iff_prefix.mp hq
+          have h2 : m.1 <+: bs := h1.trans (List.take_prefix n bs)
+          exact absurd (List.isPrefixOf_iff_prefix.mpr h2) hp
+      simp only [hp2]
+      exact ih h
+
+/-- a gzip whose members come from a table (first entry the input starts with) recognises a member from its own bytes:
+the instantiation used by the driver of corr:split satisfies the hypothesis of the `ExpandApk` theorems -/
+theorem tableGz_local (G : Gz) (ms : List (Bytes × Bytes)) (hG : G.member = tableMember ms) : G.Local := by
+  intro bs n d h
+  unfold memberAt at h ⊢
+  rw [hG] at h ⊢
+  split at h
+  · next n0 d0 hm =>
+    split at h
+    · next hb =>
+      cases h
+      rw [tableMember_take ms bs n d hm]
+      have : n ≤ (bs.take n).length := by rw [List.length_take]; omega
+      show (if 0 < n ∧ n ≤ (List.take n bs).length then some (n, d) else none) = some (n, d)
+      rw [if_pos ⟨hb.1, this⟩]
+    · cases h
+  · cases h
+
 /-- a toy gzip: a member is `7, x, y` and decompresses to `x, y`; a toy tar: a section that starts with `1` has a
 first header `.SIGN.k`, one that starts with `6` holds a regular file whose record does not match -/
 def toyG : Gz :=
